@@ -100,6 +100,7 @@ pub fn run3_raw(toks: &[RTok; 3], s: Settings) -> &'static [u8] {
 
 /// Reference layout (positions only).
 pub fn layout3(toks: &[RTok; 3], s: &Settings, out: &'static [u8]) -> Layout {
+    // `out` may be empty when only the positions are needed
     let mut ws_start = [0usize; 3];
     let mut start = [0usize; 3];
     let mut inserted = [0usize; 3];
@@ -197,4 +198,16 @@ pub fn text_with_ws(n: usize, table: &[u8], content: &[u8]) -> &'static str {
         k += 1;
     }
     leak_str(v)
+}
+
+/// Like `recon_harness!`, plus naive models of core's internal byte searches (`str::split`,
+/// `rfind`, `contains` go through a word-at-a-time routine that is very expensive to bit-blast).
+#[macro_export]
+macro_rules! cursor_harness {
+    ($(#[$m: meta])* fn $name: ident () unwind($u: expr) $body: block) => {
+        $crate::harness! {
+            $(#[$m])*
+            fn $name() unwind($u) stubs(std::string::String::push_str => crate::common::stub_push_str, std::string::String::push => crate::common::stub_push, log::max_level => crate::common::stub_log_max_level_off, core::slice::memchr::memchr => crate::common::stub_memchr_16, core::slice::memchr::memrchr => crate::common::stub_memrchr_16) $body
+        }
+    };
 }
